@@ -45,17 +45,14 @@ def build(spec):
                                                    in_degree_sequence, out_degree, out_degree_sequence,
                                                    strong_reciprocity, weak_reciprocity)
 
+        from verif.build import build_from_bits
+
         bits = present_bits(S, cands, fixed)
         h = DirectedHypergraph()
         for n in nodes:
             h.add_node(n)
-        idx = list(range(len(cands)))
-        if spec.get("reverse"):
-            idx.reverse()
-        for i in idx:
-            if bits[i]:
-                h.add_edge(cands[i])
-        present = [cands[i] for i in range(len(cands)) if bits[i]]
+        mode = spec.get("build", "add-rev" if spec.get("reverse") else "add")
+        present = build_from_bits(cands, bits, h.add_edge, h.remove_edge, mode)
         if what == "degree":
             fm = spec["fmode"]
             kw = {}
@@ -151,12 +148,14 @@ def obligations(tier, seed):
     for cname, nfix, rev in plans:
         for fixed in itertools.product([0, 1], repeat=nfix):
             for what in ("signature", "reciprocity"):
+                kb = sum(fixed) + (what == "signature")
                 out.append({"family": what, "cands": cname, "fixed": list(fixed), "what": what, "reverse": rev,
-                            "mmax": 5 if q else 7})
+                            "mmax": 5 if q else 7, "build": ("add", "add-rev", "remove", "readd")[kb % 4]})
     for cname, nfix in ([("n4q", 2)] if q else [("n4", 3), ("n5", 5)]):
         for fixed in itertools.product([0, 1], repeat=nfix):
             for fm in ("none", "order", "size"):
-                out.append({"family": "degree", "cands": cname, "fixed": list(fixed), "what": "degree", "fmode": fm})
+                out.append({"family": "degree", "cands": cname, "fixed": list(fixed), "what": "degree", "fmode": fm,
+                            "build": ("remove", "add", "readd")[(sum(fixed) + len(fm)) % 3]})
     return out
 
 
@@ -170,7 +169,8 @@ def budget(tier):
 
 META = {
     "bounds": {
-        "quick": "DirectedHypergraph on 4 nodes: every sub-family of 9 candidate hyperedges (sizes 2-4, with reverse "
+        "quick": "(built by insertion in candidate or reversed order, by insert-all-then-remove, or with a remove/re-insert, "
+                 "rotating over obligations) DirectedHypergraph on 4 nodes: every sub-family of 9 candidate hyperedges (sizes 2-4, with reverse "
                  "pairs, nested and overlapping shapes), bound m in [2,5] (chosen by the solver, including bounds below "
                  "the largest hyperedge), degree filter f an unbounded symbolic integer",
         "thorough": "12 candidates on 4 nodes, m in [2,7]; reversed insertion order; a 14-candidate family on 6 nodes with sizes up to 6; string labels",
